@@ -88,7 +88,21 @@ fn encode(frame: &FrameCase, crlf: bool) -> Vec<u8> {
 fn judge(orig: &Frame<'static>, mutant: &[u8]) -> Result<(), String> {
     match Frame::from_bytes(mutant) {
         Err(_) => Ok(()),
-        Ok(f) if &f == orig => Ok(()),
+        Ok(f) if &f == orig => {
+            // second sentence of the property: even when the result happens to equal the original, a text whose
+            // declared length disagrees with its data, or whose checksum does not match, must not be accepted
+            match crate::oracle::hex::ref_decode(mutant) {
+                crate::oracle::hex::RefDecode::Mismatch { declared, actual } => Err(format!(
+                    "damaged frame {} declares {declared} data bytes but carries {actual}, and was accepted",
+                    show_bytes(mutant)
+                )),
+                crate::oracle::hex::RefDecode::BadChecksum { declared, computed } => Err(format!(
+                    "damaged frame {} carries checksum {declared:#04x} where {computed:#04x} is right, and was accepted",
+                    show_bytes(mutant)
+                )),
+                _ => Ok(()),
+            }
+        }
         Ok(f) => Err(format!(
             "damaged frame {} was accepted as a different frame: {:?}",
             show_bytes(mutant),
